@@ -379,7 +379,8 @@ def c17(c):
     c.cov["rule"] = ("MC_Babai: the residue-based evaluation of the postconditions equals schoolbook arithmetic over Z on a toy ring (multiples and "
                      "non-multiples). Trace_Babai: babai_reduce_i32 and babai_reduce_bigint on the same (f, g, F, G) for every n in {2..1024}, "
                      "(F,G) = (F0,G0) + k (f,g) with |k| from 0 up to what the 2^24 bound allows, zero / extreme / real-key inputs; TLC decides "
-                     "agreement, F-F' = k f and G-G' = k g for a reconstructed integer k, invariance of f G - g F, idempotence. "
+                     "agreement, F-F' = k f and G-G' = k g for a reconstructed integer k, invariance of f G - g F, idempotence. Trace_U32: the 30-bit prime field "
+                     "of the multi-modular version (operand classes around 2^15, 2^16, 2^30, p/2, p; all 2058 table constants; transforms at every n). "
                      "distinct_nontrivial = distinct (n, family) classes")
     mc = McOutcome()
     model_check(mc, [dict(module="MC_Babai", cfg="MC_Babai", workers=8, timeout=1800)])
@@ -387,6 +388,10 @@ def c17(c):
     drive("c17", ["--tier", c.tier, "--seed", c.seed, "--out", c.work, "--shards", 14], timeout=3600)
     to = validate_traces("Trace_Babai", traces_in(c.work, "babai"), parallel=PAR, timeout=7200)
     c.add_traces(to, keyfn=babai_key)
+    # the multi-modular arithmetic the 32-bit version rests on: a wrong field operation breaks agreement on the inputs that reach it
+    drive("u32field", ["--tier", c.tier, "--seed", c.seed, "--out", c.work, "--shards", 14])
+    to = validate_traces("Trace_U32", traces_in(c.work, "u32f"), parallel=PAR, sparse=True)
+    c.add_traces(to, keyfn=generic_key, label="u32field")
     c.assumptions += ["the reduction's internal floating-point quotient is not specified -- only its postconditions",
                       "when f is not invertible modulo 18433 or 40961 the multiple k is not reconstructed (branch '-kskipped'); the invariant still is"]
 
